@@ -511,6 +511,12 @@ func init() {
 									if tw == 0 && bc == 0 && ec == 0 && k <= 2 {
 										jobs = append(jobs, J(sessPkg, "H_C10_resend", role, k, bc, ec, tw, 1))
 									}
+									if bc == 0 && ec == 0 && k <= 1 && tw == 0 {
+										// history produced by the session's own timers and replies
+										j := J(sessPkg, "H_C10_resend", role, k, bc, ec, tw, 0, 1)
+										j.EngineReplay = true
+										jobs = append(jobs, j)
+									}
 								}
 							}
 						}
@@ -523,7 +529,7 @@ func init() {
 				}
 				return jobs
 			},
-			Explanation:  "Symbolic harness: a logged-on session sends k messages of mixed types with symbolic contents; their first transmissions are recorded from the outbound queue; then one or two ResendRequests with symbolic BeginSeqNo/EndSeqNo (0..99, so inside, e=0, b=e, beyond last, b>e, b=0, repeated) are dispatched. Asserted: for 1<=b<=e<=last (e=0 meaning last) exactly the recorded messages b..e, ascending, byte-identical; otherwise nothing outside the range and nothing new. Gap detection: stored last-received number c and Logon MsgSeqNum n symbolic: n>c+1 => exactly one ResendRequest with BeginSeqNo=c+1 covering the gap; otherwise none.",
+			Explanation:  "Symbolic harness: a logged-on session sends k messages of mixed types with symbolic contents; their first transmissions are recorded from the outbound queue; (in further cases the history is produced by the session itself: two TestRequests from the silence timer, each answered, two Heartbeats from the heartbeat timer, an echo of the peer's TestRequest); then one or two ResendRequests with symbolic BeginSeqNo/EndSeqNo (0..99, so inside, e=0, b=e, beyond last, b>e, b=0, repeated) are dispatched. Asserted: for 1<=b<=e<=last (e=0 meaning last) exactly the recorded messages b..e, ascending, byte-identical; otherwise nothing outside the range and nothing new. Gap detection: stored last-received number c and Logon MsgSeqNum n symbolic: n>c+1 => exactly one ResendRequest with BeginSeqNo=c+1 covering the gap; otherwise none.",
 			Rule:         "case = (role, k, range classes, one or two requests) x path (ranges are concretised by forking, so every (b,e) is its own path)",
 			Bounds:       map[string]string{"quick": "k<=3 messages after the logon exchange, b,e in 0..99, <=2 requests", "thorough": "k<=5"},
 			Assumptions:  sessAssume,
